@@ -111,7 +111,10 @@ type webCase struct {
 	Sets []int
 }
 
-var setPool = [][2]string{{"nodecount", "-1"}, {"trim", "true"}, {"focus", ""}, {"granularity", "functions"}, {"sort", "flat"}, {"unit", "minimum"}, {"call_tree", "false"}}
+// assignments that leave the options as the harness pinned them: current values, and rejected ones
+// (unknown names, unparsable values, a radio-group choice given as false) which must change nothing
+var setPool = [][2]string{{"nodecount", "-1"}, {"trim", "true"}, {"focus", ""}, {"granularity", "functions"}, {"sort", "flat"}, {"unit", "minimum"}, {"call_tree", "false"},
+	{"functions", "true"}, {"flat", "true"}, {"lines", "false"}, {"cum", "0"}, {"addresses", "no"}, {"nosuchoption", "1"}, {"nodecount", "many"}, {"nodefraction", "x"}, {"trim", "maybe"}, {"granularity", "nosuch"}}
 
 func genWeb(t *rapid.T) *webCase {
 	o := profOpts
@@ -190,7 +193,7 @@ func checkWeb(c *webCase, o *vk.Obs) []string {
 
 func TestPropWeb(t *testing.T) {
 	vk.Main(t, vk.Spec[webCase]{ID: "C20", Facet: "web", Quick: 250, Thorough: 1500, Gen: genWeb, Check: checkWeb, Journal: true, CaseTimeout: 120 * time.Second,
-		Rule: "3..10 web UI requests over all endpoints released together with 1..6 concurrent SetVariableDefault calls (options read while being set, to their current values), under the race detector; oracle: no data race, no deadlock, every response equals the response to the same request served alone; non-trivial = at least two distinct requests"})
+		Rule: "3..10 web UI requests over all endpoints released together with 1..6 concurrent SetVariableDefault calls (options read while being set - to their current values, or with rejected assignments that must change nothing and must not wedge the option store), under the race detector; oracle: no data race, no deadlock, every response equals the response to the same request served alone; non-trivial = at least two distinct requests"})
 }
 
 // ---- facet tools: one ObjFile, many concurrent SourceLine calls; tool configuration changed meanwhile ----
